@@ -326,6 +326,7 @@ class Interp:
         if isinstance(st, ast.Return):
             v = self.eval(st.value, fr) if st.value is not None else K(None)
             fr.returns.append((tuple(self.guards) + tuple(mk("not", rg) for rg in fr.ret_guards), v))
+            self.record("return", fr.fn, [v], {}, st)
             return Flow.RETURN
         if isinstance(st, ast.Raise):
             self.record("raise", "raise", [], {}, st)
@@ -1010,6 +1011,8 @@ class Interp:
             return Unk(call("dictcomp", to_term(gen[0]), to_term(gen[1]), to_term(it)), why="comprehension")
         d = {}
         for k, v in out:
+            if not is_pyconst(k):
+                return Unk(call("dictcomp", to_term(k), to_term(v), to_term(it)), why="comprehension with non-literal keys")
             d[pyval(k)] = v
         return DictV(d)
 
@@ -1077,6 +1080,19 @@ class Interp:
                 break
         return res
 
+    def _ignored_options(self, name, recv, kw, res, node, n0):
+        """keyword options of a library call that the model of the call never looked at: recorded (the obligations decide what an
+        un-interpreted option means); an opaque result carries every argument in its term and counts as interpreted"""
+        left = [k for k in dict.keys(kw) if k not in kw.seen]
+        if not left:
+            return
+        from .values import Unk as _U
+        if isinstance(res, _U) and all(tm.contains(to_term(res), lambda n, v=to_term(dict.__getitem__(kw, k)): n == v) for k in left):
+            return
+        for k in left:
+            self.record("ignored-option", name, [dict.__getitem__(kw, k)], {}, node, {"option": k, "receiver": type(recv).__name__ if recv is not None else None})
+
+
     def _call(self, f, args, kwargs, node, fr):
         if isinstance(f, Func):
             name = "cryocat." + f.qual
@@ -1103,12 +1119,20 @@ class Interp:
                 return self.summaries[name](self, args, kwargs, node, fr)
             return self.lib.construct(self, f, args, kwargs, node, fr)
         if isinstance(f, Method):
-            return self.lib.call_method(self, f.recv, f.name, args, kwargs, node, fr)
+            kw_ = KW(kwargs)
+            n0_ = len(self.events)
+            res_ = self.lib.call_method(self, f.recv, f.name, args, kw_, node, fr)
+            self._ignored_options("method:" + f.name, f.recv, kw_, res_, node, n0_)
+            return res_
         if isinstance(f, Ref):
             self.record("call", f.name, args, dict(kwargs), node)
             if f.name in self.summaries:
                 return self.summaries[f.name](self, args, kwargs, node, fr)
-            return self.lib.call_ref(self, f.name, args, kwargs, node, fr)
+            kw_ = KW(kwargs)
+            n0_ = len(self.events)
+            res_ = self.lib.call_ref(self, f.name, args, kw_, node, fr)
+            self._ignored_options(f.name, None, kw_, res_, node, n0_ + 0)
+            return res_
         if isinstance(f, Unk) and getattr(f, "attr_of", None) is not None:
             return self.lib.call_method(self, f.attr_of[0], f.attr_of[1], args, kwargs, node, fr)
         if isinstance(f, Unk):
@@ -1118,6 +1142,59 @@ class Interp:
 
 
 # ---------------------------------------------------------------------------------------------------- helpers
+# keyword options the models of these calls leave alone on purpose (confirmed on the clean tree): the rules that care read them
+# from the recorded call (sorted: C07 reads key / reverse from the event), or they do not change values (dtype=float of a table built
+# from floats, the regular expression that separates the columns of a text table, the index of a one-row table, keepdims)
+IGNORED_OPTIONS_OK = {("builtins.sorted", "key"), ("builtins.sorted", "reverse"), ("numpy.linalg.norm", "keepdims"), ("pandas.DataFrame", "dtype"),
+                      ("pandas.DataFrame", "index"), ("pandas.read_csv", "dtype"), ("pandas.read_csv", "sep"), ("pandas.read_csv", "skiprows")}
+
+
+class KW(dict):
+    """keyword arguments of a library call, remembering which of them the model of the call looked at"""
+
+    def __init__(self, *a, **k):
+        super().__init__(*a, **k)
+        self.seen = set()
+
+    def __getitem__(self, k):
+        self.seen.add(k)
+        return super().__getitem__(k)
+
+    def get(self, k, d=None):
+        self.seen.add(k)
+        return super().get(k, d)
+
+    def pop(self, k, *d):
+        self.seen.add(k)
+        return super().pop(k, *d)
+
+    def __contains__(self, k):
+        return super().__contains__(k)
+
+    def _all(self):
+        self.seen.update(super().keys())
+
+    def items(self):
+        self._all()
+        return super().items()
+
+    def values(self):
+        self._all()
+        return super().values()
+
+    def keys(self):
+        self._all()
+        return super().keys()
+
+    def __iter__(self):
+        self._all()
+        return super().__iter__()
+
+    def copy(self):
+        self._all()
+        return dict(self)
+
+
 def _load(target):
     t = copy.deepcopy(target)
     for n in ast.walk(t):
